@@ -45,6 +45,7 @@ pub const NUM_FNS: &[(&str, u32, u32)] = &[
     ("evenport", 15, 256),
     ("icmp", 16, 65536),
     ("ctxpad", 17, 1),
+    ("reqtransport", 18, 1),
 ];
 
 fn num_one(f: &str, v: u32) -> String {
@@ -130,6 +131,12 @@ fn num_one(f: &str, v: u32) -> String {
         }
         // the `experiments` feature (StunPadding::Custom) is not enabled in the harness: the default context only
         "ctxpad" => format!("{}", stun_rs::EncoderContextBuilder::default().build().padding()),
+        "reqtransport" => {
+            use stun_rs::attributes::turn::RequestedTrasport;
+            let p = RequestedTrasport::new(stun_rs::protocols::UDP);
+            if RequestedTrasport::default() != p || RequestedTrasport::from(stun_rs::protocols::UDP) != p || p.protocol() != 17u8 { return "X".into() }
+            format!("{}", p.protocol().as_u8())
+        }
         _ => "UNKNOWN-FUNCTION".into(),
     }
 }
